@@ -196,7 +196,7 @@ func c13Header(verByte, flags byte, stream int16, op primitive.OpCode, bodyLen i
 	return []byte{verByte, flags, byte(uint16(stream) >> 8), byte(stream), byte(op), byte(n >> 24), byte(n >> 16), byte(n >> 8), byte(n)}
 }
 
-const c13Watchdog = 15 * time.Second
+const c13Watchdog = 6 * time.Second
 
 // c13Barrier performs k OPTIONS round trips with the given versions (cycled) on streams base, base+1, ...
 // Result: "ok" | "closed" | "timeout" | "bad:<opcode>".
@@ -597,11 +597,25 @@ func c13GateChain(c *Ctx, bed *px.Bed, j c13Job) {
 	mark := bed.Log.Len()
 	_ = cl.SendRaw(wire, "gate chain")
 	res := c13Barrier(cl, []primitive.ProtocolVersion{max, 3}, 1000, 3)
+	scen := j.scenario()
 	if res == "timeout" {
+		// judge what did arrive: a rejected frame answered with anything but a PROTOCOL error is a violation by itself
+		wrong := ""
+		for _, s := range all {
+			for _, f := range cl.OnStream(s.st) {
+				if code, _, ok := c13ErrorOf(f, ""); !ok || code != primitive.ErrorCodeProtocolError {
+					wrong = fmt.Sprintf("%s %s on stream %d answered %s", c13VerName(s.v), c13OpName(s.op), s.st, c13Kinds([]*rawcql.Frame{f}))
+				}
+			}
+		}
+		if wrong != "" {
+			r.Violate(mon.Violation{Signature: "C13/gate/chain-rejected-frame-accepted/max=" + c13VerName(max), Scenario: scen,
+				Detail: fmt.Sprintf("%d frames of versions the proxy must reject were pipelined on one connection: %s (frames received: %s)", len(all), wrong, c13Kinds(cl.Frames()))})
+			return
+		}
 		r.Inconc("gate chain: watchdog")
 		return
 	}
-	scen := j.scenario()
 	if res != "ok" {
 		r.Violate(mon.Violation{Signature: "C13/gate/chain-leaves-connection-unusable/max=" + c13VerName(max), Scenario: scen,
 			Detail: fmt.Sprintf("%d rejected frames pipelined on one connection, then OPTIONS: %s; frames received: %s", len(all), res, c13Kinds(cl.Frames()))})
@@ -1082,6 +1096,10 @@ func c13Orders(c *Ctx, bed *px.Bed, j c13Job) {
 		seq, v := cs.seq, cs.v
 		c.Step("C13 order %s max=%s v=%s comp=%q seq=%s", j.Mode, c13VerName(j.Max), c13VerName(v), j.Comp, seq)
 		r.Eval(1)
+		if r.ViolationCount() > 25 {
+			r.Obs("orders_cut_short_after_25_violations", 1)
+			break
+		}
 		r.NonTrivial(fmt.Sprintf("order/%s/comp=%s/v=%s/%s", j.Mode, j.Comp, c13VerName(v), seq))
 		cl, err := bed.Client(v)
 		if err != nil {
@@ -1147,8 +1165,33 @@ func c13Orders(c *Ctx, bed *px.Bed, j c13Job) {
 				r.Violate(mon.Violation{Signature: fmt.Sprintf("C13/order/%s/connection-closed/op=%s", j.Mode, c13OpName(opOf[s.op])), Scenario: scen, Witness: wit(),
 					Detail: fmt.Sprintf("sequence %s: the connection closed while waiting for the reply to frame #%d %s", seq, s.st, c13OpName(opOf[s.op]))})
 			default:
-				inconc = true
-				r.Inconc(fmt.Sprintf("order %s %s: watchdog waiting for frame #%d", j.Mode, seq, s.st))
+				// no frame on the stream it is owed on. Did a reply land elsewhere (another stream, twice on one stream)?
+				sentOn := map[int16]bool{}
+				for _, x := range all {
+					sentOn[x.st] = true
+				}
+				per := map[int16]int{}
+				stray := ""
+				for _, f := range cl.Frames() {
+					per[f.Stream]++
+					if !sentOn[f.Stream] || per[f.Stream] > 1 {
+						stray = fmt.Sprintf("stream %d (%s)", f.Stream, c13OpName(f.OpCode))
+					}
+				}
+				switch {
+				case stray != "":
+					bad = true
+					r.Violate(mon.Violation{Signature: fmt.Sprintf("C13/order/%s/reply-on-wrong-stream/op=%s", j.Mode, c13OpName(opOf[s.op])), Scenario: scen, Witness: wit(),
+						Detail: fmt.Sprintf("sequence %s: frame #%d %s got no reply on its stream, but an extra frame arrived on %s; all frames: %s", seq, s.st, c13OpName(opOf[s.op]), stray, c13Kinds(cl.Frames()))})
+				case s.op != 'Q' && c13Barrier(cl, []primitive.ProtocolVersion{v}, 2000, 3) == "ok" && len(cl.OnStream(s.st)) == 0:
+					// OPTIONS/STARTUP/REGISTER are answered by the proxy itself, in order: three later OPTIONS were answered, this one never
+					bad = true
+					r.Violate(mon.Violation{Signature: fmt.Sprintf("C13/order/%s/no-reply/op=%s", j.Mode, c13OpName(opOf[s.op])), Scenario: scen, Witness: wit(),
+						Detail: fmt.Sprintf("sequence %s: frame #%d %s was never answered although three later OPTIONS on the same connection were", seq, s.st, c13OpName(opOf[s.op]))})
+				default:
+					inconc = true
+					r.Inconc(fmt.Sprintf("order %s %s: watchdog waiting for frame #%d", j.Mode, seq, s.st))
+				}
 			}
 		}
 		if j.Mode == "awaited" {
